@@ -305,11 +305,25 @@ def Ctx.handle (v : Variant) (c : Ctx) (r : Resp) : Ctx :=
   { c1 with done := c1.done || decide (c1.expect ≤ 0) || c1.err.isSome }
 
 /-- `baseTaskContext.Complete(err)`: called by the search pipeline's completion callback once the
-plan is made and every request is sent (`err = nil`), or with the planning/sending error. It
-OVERWRITES `ctx.err`, then `tryClose`. -/
-def Ctx.complete (c : Ctx) (e : Option ErrKind) : Ctx :=
-  let c1 := { c with err := e }
+plan is made and every request is sent (`err = nil`), or with the planning/sending error; then
+`tryClose`. `keep = false` is the pinned code: `ctx.err = err` unconditionally (a recorded error
+is replaced by nil). `keep = true` is the repair `if err != nil || ctx.err == nil { ctx.err = err }`:
+nil never replaces a recorded error. The driver takes `keep` from the regenerated facts. -/
+def Ctx.complete (keep : Bool) (c : Ctx) (e : Option ErrKind) : Ctx :=
+  let c1 := { c with err := if keep && e.isNone then c.err else e }
   { c1 with done := c1.done || decide (c1.expect ≤ 0) || c1.err.isSome }
+
+/-- what can happen to a task context, in the order it happens: a response is handled, or the
+plan-completion callback runs -/
+inductive Event where
+  | resp (r : Resp)
+  | planDone (e : Option ErrKind)
+
+def Ctx.step (keep : Bool) (v : Variant) (c : Ctx) : Event → Ctx
+  | .resp r => c.handle v r
+  | .planDone e => c.complete keep e
+
+def Ctx.run (keep : Bool) (v : Variant) (c : Ctx) (evs : List Event) : Ctx := evs.foldl (Ctx.step keep v) c
 
 def Ctx.handleAll (v : Variant) (c : Ctx) (rs : List Resp) : Ctx := rs.foldl (Ctx.handle v) c
 
